@@ -16,6 +16,8 @@ package limitscheck
 //
 //	{"a":"TakeMsg","m","ip","src"}  MAIL FROM:<m@src> (immediate) / MAIL + first RCPT (deferred)
 //	{"a":"PipeReject","m"}          (plan) the pipeline refuses that sender
+//	{"a":"NestedMail","m","src","raw","null"}  a second MAIL FROM inside the open transaction (no RSET),
+//	                                 naming the same or another sender domain or the null sender
 //	{"a":"RelMsg","m"}              RSET | connection close | DATA ... (+ the RSET go-smtp issues)
 //
 // Output: the API-level event vocabulary; TakeMsg results: ok | timeout | rejected | full.
@@ -150,8 +152,9 @@ func (d *c11Delivery) Commit(context.Context) error { return d.done() }
 
 type EStep struct {
 	Step
-	Raw bool   `json:"raw"`
-	How string `json:"how"`
+	Raw  bool   `json:"raw"`
+	How  string `json:"how"`
+	Null bool   `json:"null"`
 }
 
 type EBehaviour struct {
@@ -278,6 +281,40 @@ func (r *erun) ecall(c *eclient, op, ip, src string, raw, planned bool, how stri
 	synctest.Wait()
 }
 
+// nestedMail sends MAIL FROM again inside the open transaction of c.
+func (r *erun) nestedMail(c *eclient, st EStep) {
+	prev := r.parked()
+	defer func() { r.resume(prev) }()
+	from := ""
+	if !st.Null {
+		from = senderOf(c.name+"x", st.Src, st.Raw)
+	}
+	r.mu.Lock()
+	c.pending = true
+	r.mu.Unlock()
+	go func() {
+		r.enter(c.name)
+		res := "ok"
+		defer func() {
+			if p := recover(); p != nil {
+				res = "panic"
+			}
+			r.mu.Lock()
+			c.pending = false
+			r.mu.Unlock()
+			r.tr.Emit("NestedMail", vtrace.Ev{"m": c.name, "src": st.Src, "raw": st.Raw, "null": st.Null, "res": res})
+		}()
+		if err := c.s.Mail(from, &smtp.MailOptions{}); err != nil {
+			res = "err"
+			var se *smtp.SMTPError
+			if errors.As(err, &se) {
+				res = strconv.Itoa(se.Code)
+			}
+		}
+	}()
+	synctest.Wait()
+}
+
 func (r *erun) estep(st EStep, planned bool) {
 	switch st.A {
 	case "Tick":
@@ -317,6 +354,12 @@ func (r *erun) estep(st EStep, planned bool) {
 		r.tgt.mu.Unlock()
 		c.how = st.How
 		r.ecall(c, "TakeMsg", st.IP, st.Src, st.Raw, planned, st.How)
+	case "NestedMail":
+		if !msg {
+			r.skip(st.Step, "no open transaction")
+			return
+		}
+		r.nestedMail(c, st)
 	case "RelMsg":
 		if !msg {
 			r.skip(st.Step, "no open transaction")
